@@ -79,6 +79,7 @@ def floors(tier):
         "F:runs": 250 * k,
         "F:decided:level_sequences": 500 * k,
         "F:resumed_runs:checkpointing:non_contiguous_fidelities": 100 * k,
+        "F:trials_with_max_resource_attr:off_the_fidelity_grid": 60 * k,
         "runs:table_columns_in_other_order_than_config_space": 200 * k,
         "decided:completions_observed_at_or_after_completion_time": 300 * k,
         "runs:max_resource_attr": 100 * k,
@@ -223,12 +224,21 @@ def run_engine_f(spec):
     ckpt = rng.random() < 0.75
     bb = BlackboxTabular(hyperparameters=hyper, configuration_space=cs, fidelity_space={"epoch": randint(1, int(max(fids)))},
                          objectives_evaluations=evals, fidelity_values=np.asarray(fids), objectives_names=["loss", "elapsed_time"])
-    be = UserBlackboxBackend(blackbox=bb, elapsed_time_attr="elapsed_time", seed=0, support_checkpointing=ckpt)
+    use_mra = rng.random() < 0.5
+    be = UserBlackboxBackend(blackbox=bb, elapsed_time_attr="elapsed_time", seed=0, support_checkpointing=ckpt,
+                             max_resource_attr="epochs" if use_mra else None)
     be.time_keeper.start_of_time()
     n_trials = rng.randint(1, 4)
     rows = [rng.randrange(n) for _ in range(n_trials)]  # trials may share a configuration
+    limit = {}
     for t in range(n_trials):
-        be.start_trial({"x1": int(data[rows[t]][0]), "x2": int(data[rows[t]][1])})
+        cfg_t = {"x1": int(data[rows[t]][0]), "x2": int(data[rows[t]][1])}
+        if use_mra:
+            # the maximum resource of a trial need not be a fidelity value of the table (also below the first / above the last)
+            limit[t] = rng.randint(fids[0], fids[-1] + 2)
+            cfg_t["epochs"] = limit[t]
+            o.count("F:trials_with_max_resource_attr" + ("" if limit[t] in fids else ":off_the_fidelity_grid"))
+        be.start_trial(cfg_t)
     runs = {t: [[]] for t in range(n_trials)}          # delivered levels per run
     paused_at = {t: [] for t in range(n_trials)}
     state = {t: "running" for t in range(n_trials)}
@@ -260,7 +270,7 @@ def run_engine_f(spec):
                     o.violate("time_never_runs_backwards", "F:time_stamps_of_one_trial_decrease", {"trial": t, "from": last_t[t], "to": ts})
                 if ts is not None:
                     last_t[t] = ts
-                if want_pauses[t] > 0 and lvl < fids[-1] and rng.random() < 0.4:
+                if want_pauses[t] > 0 and lvl < (max([f for f in fids if t not in limit or f <= limit[t]] or [lvl])) and rng.random() < 0.4:
                     be.pause_trial(trial_id=t, result=res)
                     state[t] = "paused"
                     paused_at[t].append(lvl)
@@ -286,13 +296,18 @@ def run_engine_f(spec):
                 o.count("F:resumed_runs:checkpointing" + ("" if style == "contiguous" else ":non_contiguous_fidelities"))
             elif ri > 0:
                 o.count("F:resumed_runs:no_checkpointing")
-            exp = fids[start_pos: start_pos + len(lv)]
+            allowed = [f for f in fids if t not in limit or f <= limit[t]]
+            exp = allowed[start_pos: start_pos + len(lv)]
+            if lv != exp and t in limit and lv[: len(exp)] == exp and len(lv) > len(exp):
+                o.violate("never_beyond_max_resource", "F:run_reports_a_fidelity_value_above_its_max_resource",
+                          {"trial": t, "run": ri, "delivered": lv, "max_resource": limit[t], "fidelity_values": fids})
+                break
             if lv != exp:
                 o.violate("levels_consecutive_from_resume_point",
                           f"F:run_does_not_report_the_fidelity_values_after_its_resume_point:{'resumed' if ri else 'first'}:{'checkpointing' if ckpt else 'no_checkpointing'}",
                           {"trial": t, "run": ri, "delivered": lv, "expected": exp, "fidelity_values": fids, "paused_at": paused_at[t]})
                 break
-            if state[t] == "completed" and ri == len(runs[t]) - 1 and lv[-1] != fids[-1]:
+            if state[t] == "completed" and ri == len(runs[t]) - 1 and lv[-1] != allowed[-1]:
                 o.violate("levels_consecutive_from_resume_point", "F:completed_run_did_not_reach_the_last_fidelity_value",
                           {"trial": t, "delivered": lv, "fidelity_values": fids})
             sig.append((ri, len(lv), style))
